@@ -265,6 +265,41 @@ def fmt1(x):
     return '%.1f' % x
 
 
+def field_problems(r, rmap, qmap):
+    """header fields of one parsed record against its listed pairs and the two input maps (rmap, qmap = (length, positions) from
+    the CMAP text); returns [(field, detail)]"""
+    out = []
+
+    def bad(sym, detail):
+        out.append((sym, detail))
+    rev = r['Orientation'] == '-'
+    rlen, rpos = rmap
+    qlen, qpos = qmap
+    n = len(qpos)
+    p = r['pairs']
+    if r['RefLen'] != fmt1(rlen):
+        bad('RefLen', 'expected %s' % fmt1(rlen))
+    if r['QryLen'] != fmt1(qpos[-1] - qpos[0] + 1):
+        bad('QryLen', 'expected %s' % fmt1(qpos[-1] - qpos[0] + 1))
+    if r['RefStartPos'] != fmt1(rpos[p[0][0] - 1]) or r['RefEndPos'] != fmt1(rpos[p[-1][0] - 1]):
+        bad('RefStartPos/RefEndPos', 'expected %s %s' % (fmt1(rpos[p[0][0] - 1]), fmt1(rpos[p[-1][0] - 1])))
+    qmin = min(x[1] for x in p)
+    qmax = max(x[1] for x in p)
+    if not rev:
+        es, ee = qpos[qmin - 1] - qpos[0], qpos[qmax - 1] - qpos[0]
+    else:
+        es, ee = qpos[n - 1] - qpos[qmin - 1], qpos[n - 1] - qpos[qmax - 1]
+    if r['QryStartPos'] != fmt1(es) or r['QryEndPos'] != fmt1(ee):
+        bad('QryStartPos/QryEndPos', 'expected %s %s' % (fmt1(es), fmt1(ee)))
+    try:
+        s_, e_ = float(r['QryStartPos']), float(r['QryEndPos'])
+        if (not rev and not s_ <= e_) or (rev and not s_ >= e_):
+            bad('Qry-start-end-order', '')
+    except ValueError:
+        bad('Qry-not-a-number', '')
+    return out
+
+
 def judge_c02(ctx, mode, extra, obs, acc):
     found = []
     for fk, i, r, rmap, qmap, second, joined in records(ctx, mode, obs):
@@ -291,30 +326,9 @@ def judge_c02(ctx, mode, extra, obs, acc):
         if acc is not None and not record_valid(r, rmap, qmap):
             acc.classes['records-with-invalid-matching'] += 1
         rev = r['Orientation'] == '-'
-        rlen, rpos = rmap
-        qlen, qpos = qmap
-        n = len(qpos)
-        p = r['pairs']
-        if r['RefLen'] != fmt1(rlen):
-            bad('RefLen', 'expected %s' % fmt1(rlen))
-        if r['QryLen'] != fmt1(qpos[-1] - qpos[0] + 1):
-            bad('QryLen', 'expected %s' % fmt1(qpos[-1] - qpos[0] + 1))
-        if r['RefStartPos'] != fmt1(rpos[p[0][0] - 1]) or r['RefEndPos'] != fmt1(rpos[p[-1][0] - 1]):
-            bad('RefStartPos/RefEndPos', 'expected %s %s' % (fmt1(rpos[p[0][0] - 1]), fmt1(rpos[p[-1][0] - 1])))
-        qmin = min(x[1] for x in p)
-        qmax = max(x[1] for x in p)
-        if not rev:
-            es, ee = qpos[qmin - 1] - qpos[0], qpos[qmax - 1] - qpos[0]
-        else:
-            es, ee = qpos[n - 1] - qpos[qmin - 1], qpos[n - 1] - qpos[qmax - 1]
-        if r['QryStartPos'] != fmt1(es) or r['QryEndPos'] != fmt1(ee):
-            bad('QryStartPos/QryEndPos', 'expected %s %s' % (fmt1(es), fmt1(ee)))
-        try:
-            s_, e_ = float(r['QryStartPos']), float(r['QryEndPos'])
-            if (not rev and not s_ <= e_) or (rev and not s_ >= e_):
-                bad('Qry-start-end-order', '')
-        except ValueError:
-            bad('Qry-not-a-number', '')
+        qpos = qmap[1]
+        for sym, detail in field_problems(r, rmap, qmap):
+            bad(sym, detail)
         if acc is not None:
             acc.classes['records'] += 1
             if rev or second or qpos[0] != 0:
